@@ -87,6 +87,19 @@ def spec_pipe(o):
 def spec_eng(o):
     if o.get("err"):
         return o["err"]
+    if o.get("class") == "eng/cancel-while-waiting":
+        # the scan was interrupted (context cancelled, Ctrl-C) while more workers than the burst allowance waited in the
+        # limiter: every probe the engine still starts is paced like all others
+        ts, p = o["starts"], o["per"] // o["rate"]
+        for i in range(len(ts)):
+            for j in range(i + 1, len(ts)):
+                if ts[j] - ts[i] < (j - i - SLACK - 3) * p:
+                    return ("application scan --rate %s, %d workers, interrupted %d ms after the start while the workers wait "
+                            "for their turn: %d consecutive probes were started within %d ns (from %d ms after the start); "
+                            "the rate allows no less than (%d-1-%d)*%d = %d ns"
+                            % (o["rate_str"], o["workers"], o["takes"] // 10 ** 6, j - i + 1, ts[j] - ts[i], ts[i] // 10 ** 6,
+                               j - i + 1, SLACK, p, (j - i - SLACK) * p))
+        return None
     if o["scans"] != o["m"]:
         return "%d targets, %d probes started" % (o["m"], o["scans"])
     p = o["per"] // o["rate"]
